@@ -126,6 +126,12 @@ def vmap_1d(
         )
 
     signature = inspect.signature(func)
+    if any(
+        p.kind == inspect.Parameter.KEYWORD_ONLY for p in signature.parameters.values()
+    ):
+        # jax.vmap cannot deal with keyword-only arguments
+        func = allow_args(func)
+        signature = inspect.signature(func)
     parameters = list(signature.parameters)
 
     positions = [parameters.index(var) for var in variables]
